@@ -27,7 +27,7 @@ var Pages = []string{
 <p>Paragraph two of the prefixed page, long enough as well, with more and more words to reach the length that is needed for content.</p>
 <p><a href="/list?cat=1&amp;page=1">1</a> <a href="/list?cat=2&amp;page=2">2</a> <a href="/list?cat=3&amp;page=3">3</a></p></div></body></html>`,
 	// 4: descending pager, current page decorated
-	`<html><head><title>Archive listing page</title></head><body><div><p>Paragraph of the archive page with enough words to be classified as content by the classifier, keep typing a few more words here.</p>
+	`<html><head><base href="http://h.t/archive?page=2"><title>Archive listing page</title></head><body><div><p>Paragraph of the archive page with enough words to be classified as content by the classifier, keep typing a few more words here.</p>
 <div class="nav"><a href="/archive?page=4">4</a> <a href="/archive?page=3">3</a> <b>2</b> <a href="/archive?page=1">1</a></div>
 <div class="pager"><a class="nav" href="/archive/plans/3">Next</a></div><div class="pager"><a class="nav" href="/archive/photo/3">Next</a></div></div></body></html>`,
 	// 5: OpenGraph prefixes declared with xmlns attributes, https and multi-valued schema.org item types, prev/next links under two "negative" ancestors, data table before a marked subtree
